@@ -1,16 +1,16 @@
 #!/bin/sh
-# sweep_seeded.sh [tier] [only-pattern]: run every kept seeded change against the check of its property; writes seeded/SWEEP.txt
+# sweep_seeded.sh [tier] [only-pattern]: run every kept seeded change against the check of its property; writes seeded/SWEEP-<tier>.txt
 T="${1:-quick}"; PAT="${2:-}"
-cd /verif
-: > /tmp/sweep.$$
+V="$(cd "$(dirname "$0")/.." && pwd)"; cd "$V"
+OUT=/tmp/sweep.$$; : > $OUT
 for d in seeded/*${PAT}*/; do
   [ -f "$d/patch.diff" ] || continue
   ID=$(jq -r .property "$d/meta.json")
-  R=$(tools/try_mutant.sh "$PWD/$d/patch.diff" "$ID" "$T" 2>&1)
+  R=$(tools/try_mutant.sh "$V/$d/patch.diff" "$ID" "$T" 2>&1)
   RC=$(echo "$R" | sed -n 's/^exit=//p')
-  V=$(echo "$R" | grep -c '^VIOLATION')
+  N=$(echo "$R" | grep -c '^VIOLATION')
   H=$(echo "$R" | sed -n 's/^VIOLATION.*replays\/[A-Z0-9]*-\([A-Za-z0-9]*\)-.*/\1/p' | sort -u | tr '\n' ' ')
   I=$(echo "$R" | grep -c '^INCONCLUSIVE')
-  echo "$(basename $d) property=$ID tier=$T exit=$RC violations=$V inconclusive=$I caught_by=[$H]" | tee -a /tmp/sweep.$$
+  echo "$(basename $d) property=$ID tier=$T exit=$RC violations=$N inconclusive=$I caught_by=[$H]" | tee -a $OUT
 done
-if [ -z "$PAT" ]; then mv /tmp/sweep.$$ seeded/SWEEP-$T.txt; else rm -f /tmp/sweep.$$; fi
+if [ -z "$PAT" ]; then mv $OUT seeded/SWEEP-$T.txt; else rm -f $OUT; fi
